@@ -33,6 +33,84 @@ fn situation(op: &Op, m: &Model) -> String {
     format!("{} policy {}", op.name(), policy(m))
 }
 
+/// graphs of more than 400 nodes (hubs with more than a thousand neighbours): no all-pairs table; the nodes of
+/// highest degree and a seeded sample of others are the sources, the white-box comparison covers every list
+fn check_traversal_large(step: usize, op: &Op, g: &G, snap: &Snap, m: &Model, cx: &mut Ctx) {
+    let n = snap.n();
+    let b = rt::budget(n, snap.edges.len());
+    let specs = m.specs;
+    let hop_adj = snap.adj_min(true);
+    let mut by_degree: Vec<usize> = (0..n).collect();
+    by_degree.sort_by_key(|u| std::cmp::Reverse(hop_adj[*u].len()));
+    let mut rng = Rng::new(step as u64 ^ snap.edges.len() as u64, "c03.large");
+    let mut sources: Vec<usize> = by_degree.iter().take(3).copied().collect();
+    for _ in 0..9 {
+        sources.push(rng.below(n));
+    }
+    sources.dedup();
+    for &u in &sources {
+        let name = snap.names[u].clone();
+        match rt::call("dijkstra::single_source(hop,cutoff=1)", b, || dijkstra::single_source(g, false, name.clone(), None, Some(1.0), false, false)) {
+            Err(p) => {
+                cx.fail("C03.panic", "single_source panicked", format!("after step {} single_source({:?}, hop, cutoff 1) panicked: {} [{}]", step, name, p.0, specs.short()));
+                return;
+            }
+            Ok(Err(e)) => {
+                cx.fail("C03.neighbours", "single_source failed", format!("after step {} single_source({:?}) failed: {:?}", step, name, e.kind));
+                return;
+            }
+            Ok(Ok(map)) => {
+                let got: BTreeSet<String> = map.iter().filter(|(_, v)| v.distance == 1.0).map(|(k, _)| k.clone()).collect();
+                let exp: BTreeSet<String> = hop_adj[u].iter().filter(|x| x.0 != u).map(|x| snap.names[x.0].clone()).collect();
+                if got != exp {
+                    let diff: Vec<&String> = got.symmetric_difference(&exp).take(10).collect();
+                    cx.fail("C03.neighbours", &format!("traversal neighbours: {}", situation(op, m)), format!("after step {} ({}): the nodes one hop from {:?} ({} of them) differ from the stored edges ({}), e.g. {:?} [{}]", step, op.name(), name, got.len(), exp.len(), diff, specs.short()));
+                    return;
+                }
+            }
+        }
+    }
+    cx.count("neighbour_checks");
+    cx.count("probe.large_graph_sampled_sources");
+    #[cfg(graphrs_verif)]
+    {
+        if let Ok(s) = rt::call("verif_snapshot", real::OP_BUDGET, || g.verif_snapshot()) {
+            whitebox(step, op, &s, snap, m, cx);
+            if !cx.viol.is_empty() {
+                return;
+            }
+        }
+    }
+    if snap.edges.is_empty() || !snap.weighted() || snap.edges.iter().any(|e| e.2 < 0.0) {
+        return;
+    }
+    let wadj = snap.adj_min(false);
+    for &u in &sources {
+        let name = snap.names[u].clone();
+        match rt::call("dijkstra::single_source(weighted)", b, || dijkstra::single_source(g, true, name.clone(), None, None, false, false)) {
+            Err(p) => {
+                cx.fail("C03.panic", "single_source panicked", format!("after step {} weighted single_source({:?}) panicked: {}", step, name, p.0));
+                return;
+            }
+            Ok(Err(e)) => {
+                cx.fail("C03.weighted_distance", "single_source failed", format!("after step {} weighted single_source({:?}) failed: {:?}", step, name, e.kind));
+                return;
+            }
+            Ok(Ok(map)) => {
+                let exp = crate::oracle::dist::sssp(&wadj, u);
+                for v in 0..n {
+                    let got = map.get(&snap.names[v]).map(|x| x.distance).unwrap_or(INF);
+                    if !close_rel(got, exp[v]) {
+                        cx.fail("C03.weighted_distance", &format!("stale traversal weight: {}", situation(op, m)), format!("after step {} ({}): weighted distance {:?} -> {:?} is {} but the edges in get_all_edges() give {} [{}]", step, op.name(), name, snap.names[v], got, exp[v], specs.short()));
+                        return;
+                    }
+                }
+            }
+        }
+    }
+    cx.count("weighted_distance_checks");
+}
+
 pub fn check_traversal(step: usize, op: &Op, g: &G, m: &Model, case: &Case, cx: &mut Ctx) {
     let _ = case;
     // the reference is what get_all_nodes / get_all_edges of the REAL graph show (so a C01 defect is not misreported here)
@@ -46,6 +124,10 @@ pub fn check_traversal(step: usize, op: &Op, g: &G, m: &Model, case: &Case, cx: 
     let n = snap.n();
     let b = rt::budget(n, snap.edges.len());
     let specs = m.specs;
+    if n > 400 {
+        check_traversal_large(step, op, g, &snap, m, cx);
+        return;
+    }
     let hop = DistOracle::new(&snap, true);
     // (a) traversal neighbours, black box: nodes at hop distance exactly 1
     for u in 0..n {
@@ -268,7 +350,7 @@ impl Prop for C03Prop {
                 // a graph of thousands of edges (strategy thresholds), then a short tail
                 let regime = *hr.pick(&[gen::WeightRegime::AllNan, gen::WeightRegime::Dyadic, gen::WeightRegime::SmallInt, gen::WeightRegime::Nasty]);
                 let mut wr = Rng::new(seed, "workload.huge");
-                case.ops = gen::gen_huge_history(&mut wr, specs, regime, false);
+                case.ops = gen::gen_huge_history_v(&mut wr, specs, regime, false, &[0, 2, 2, 3]);
                 case.params.put("source", crate::core::json::J::s("history loading thousands of edges"));
                 case.envs = vec![Env { keying: if hr.chance(1, 2) { 0 } else { seed | 1 }, pool: if hr.chance(1, 8) { 1 } else { 2 + hr.below(15) }, sched: crate::core::rng::mix(seed, 78) }];
                 return case;
@@ -317,7 +399,7 @@ impl Prop for C03Prop {
     }
     fn cross(&self, _case: &Case, _results: &[EnvResult], _cx: &mut Ctx) {}
     fn rule(&self) -> String {
-        "lifecycle histories (<= 20 ops) biased to second edges on existing pairs (smaller / equal / larger weight, same / opposite orientation) under KeepFirst / KeepLast / multi-edge, uniformly weighted or uniformly unweighted, all 96 specs; after EVERY op: hop-1 sets from single_source vs stored edges, weighted single_source distances, weighted closeness and betweenness vs the definitions evaluated on get_all_edges() of the real graph, and (hook) successors_vec / predecessors_vec vs min stored weight per pair. distinct_nontrivial = distinct (specs, history) in which some pair received a second edge and edges remain; one case in 2500 loads 2 100 - 12 500 edges (one to three batches or the constructor, same edge values re-submitted on multi-edge graphs) into 45-180 nodes and continues with a short tail (strategy thresholds)".into()
+        "lifecycle histories (<= 20 ops) biased to second edges on existing pairs (smaller / equal / larger weight, same / opposite orientation) under KeepFirst / KeepLast / multi-edge, uniformly weighted or uniformly unweighted, all 96 specs; after EVERY op: hop-1 sets from single_source vs stored edges, weighted single_source distances, weighted closeness and betweenness vs the definitions evaluated on get_all_edges() of the real graph, and (hook) successors_vec / predecessors_vec vs min stored weight per pair. distinct_nontrivial = distinct (specs, history) in which some pair received a second edge and edges remain; one case in 2500 loads 2 100 - 12 500 edges (one to three batches or the constructor, same edge values re-submitted on multi-edge graphs) into 45-180 nodes and continues with a short tail (strategy thresholds); the large histories come in variants: dense (45-180 nodes), a hub with 1 100 - 1 600 or 4 100 - 4 500 neighbours whose pairs receive second (lighter / heavier / parallel) edges in a later call; above 400 nodes the sources are the three nodes of highest degree and nine seeded others, the white-box comparison still covers every traversal list; in half of them a load of 260-420 edges into ANOTHER graph is rejected part-way on the same thread first (fault, then recovery, at scale)".into()
     }
     fn assumptions(&self) -> Vec<String> {
         vec!["weighted betweenness is compared only when all weights are dyadic (ties exact); distances and closeness at 1e-9".into(), "non-negative weights; closeness/betweenness only with strictly positive weights".into()]
